@@ -1,4 +1,5 @@
 import PK.Properties.C01
+import PK.Properties.C01End
 #print axioms PK.C01_init
 #print axioms PK.C01_step
 #print axioms PK.C01_run
@@ -11,3 +12,14 @@ import PK.Properties.C01
 #print axioms PK.pushChips_ledger
 #print axioms PK.freezePots_ledger
 #print axioms PK.divmod_spec
+#print axioms PK.subPotsOfPot_sum
+#print axioms PK.freezePots_sum
+#print axioms PK.pushChips_sum
+#print axioms PK.pv_frame
+#print axioms PK.bv_frame
+#print axioms PK.head_pullTail
+#print axioms PK.bv_while_pulling
+#print axioms PK.C01_push_step
+#print axioms PK.C01_pull_step
+#print axioms PK.C01_end_of_hand
+#print axioms PK.C01_final_zero_sum
